@@ -12,6 +12,8 @@ def _sizes(tier, k):
 
 def main(tier, t0):
     tasks = stage_check.tasks_for("C09", tier, scenario="permuted", sizes=_sizes)
+    from harness import stage
+    tasks += stage_check.tasks_for("C09", tier, scenario="permuted", sizes=lambda t, k: [k + 1] if t == "quick" else [k, k + 1, k + 2], structures=stage.label_clash_structures(), label="label-clash")
     tasks += step_check.tasks("C09", tier)
     # (c) blank-node labels through the real readers: for every label (symbolic characters, dots included) the reader yields the blank node with exactly that label
     fnt = [f for f in load_findings("C06") if f.get("family") == "nt"]
